@@ -13,6 +13,7 @@ import (
 	"crypto/ed25519"
 	"fmt"
 	"path/filepath"
+	"time"
 
 	"go.dedis.ch/kyber/v4"
 	"go.dedis.ch/kyber/v4/sign/bls"
@@ -94,7 +95,10 @@ func c18Transcripts(c *kc.Ctx) []kc.Case {
 			key := fmt.Sprintf("embed|%d|%v|%x", seed, data == nil, data)
 			for _, g := range insts {
 				g := g
+				done := c.Watch(120*time.Second, g.Name+":Embed", fmt.Sprintf("%s/%s: Embed(%x) on a seeded stream", g.Name, groups.BuildConfig, data),
+					map[string]string{"group": g.Name, "build": groups.BuildConfig, "data": kc.HexB(data), "stream_seed": fmt.Sprint(seed)}, "proof")
 				got := kc.Recover(func() string {
+					defer done()
 					p := g.Group.Point().Embed(data, kc.NewRng(seed))
 					d, err := p.Data()
 					ds := kc.HexB(d)
